@@ -13,4 +13,5 @@ def obligations(tier):
             obls.append(create_obl(1, kind, ch))
     if tier == 'thorough':
         obls += [create_obl(1, 0, 2), create_obl(1, 1, 2), create_obl(1, 2, 2, orate='0.0')]
+    obls += [create_obl(1, 2, 2, orate='0.0'), create_obl(1, 8, 1, orate='0.0')]
     return obls
